@@ -580,3 +580,38 @@ class AccumulationTranslator(SummandTranslator):
                 f"    (zrange {lo[0]} (Z.to_nat ({hi[0]} - {lo[0]})%Z)) (dzero V)")
         return (f"Definition {coqname} {{T D : Type}} (N : Num T) (V : Data T D) {' '.join(binders)} : D :=\n  "
                 + "\n  ".join(lets) + "\n  " + body + ".")
+
+
+class ExpressionTranslator(SummandTranslator):
+    """One expression cut out of a function body by a regular expression (for formulas that live inside array
+    plumbing: the number of points of a grid axis, the delay split of the time-domain synthesis).  Variables are
+    declared with their types; `abs` is nabs, `round` and `np.rint` are nround (both round half to even),
+    `x[idx]` of a declared vector variable reads as the scalar of the current iteration."""
+
+    def __init__(self, vars_):
+        super().__init__()
+        self.types = dict(vars_)
+
+    def expr(self, e):
+        if isinstance(e, ast.Subscript) and isinstance(e.value, ast.Name) and isinstance(e.slice, ast.Name) \
+                and e.slice.id == "idx" and self.types.get(e.value.id) == "T":
+            return f"v_{e.value.id}", "T"
+        if isinstance(e, ast.Call) and not e.keywords and len(e.args) == 1:
+            fn = e.func
+            name = fn.id if isinstance(fn, ast.Name) else (fn.attr if isinstance(fn, ast.Attribute) else None)
+            if name == "abs":
+                return f"(nabs N {self.asT(self.expr(e.args[0]))})", "T"
+            if name == "rint":
+                return f"(nround N {self.asT(self.expr(e.args[0]))})", "Z"
+        return super().expr(e)
+
+    def expression(self, src, pattern, coqname, order):
+        import re
+        found = re.findall(pattern, src, flags=re.S)
+        if not found:
+            raise Untranslatable(f"pattern {pattern!r} not found in the source")
+        if len(set(" ".join(f.split()) for f in found)) != 1:
+            raise Untranslatable(f"pattern {pattern!r} matches different expressions")
+        t, ty = self.expr(ast.parse(" ".join(found[0].split()), mode="eval").body)
+        binders = " ".join(f"(v_{a} : {self.types[a]})" for a in order)
+        return f"Definition {coqname} {{T : Type}} (N : Num T) {binders} : {ty} :=\n  {t}."
